@@ -602,4 +602,32 @@ func cmdXdr(fs *flag.FlagSet, args []string) {
 			emit("# FINDING xdr:bool-nonzero-accepted SETATTR3args %s", hex.EncodeToString(sa))
 		}
 	}
+	// (round 19, C16s) the entry lists of READDIR / READDIRPLUS replies are linked lists of any length: lists far longer than
+	// the generator's depth, encoded and decoded by the real methods and compared with the RFC descriptors like every value
+	if *only == "" {
+		w := &walker{d: d, r: root.Fork()}
+		for _, n := range []int{1023, 1024, 1025, 1500} {
+			var head *nfstypes.Entry3
+			for k := n; k >= 1; k-- {
+				head = &nfstypes.Entry3{Fileid: nfstypes.Fileid3(k), Name: nfstypes.Filename3(fmt.Sprintf("n%d", k)), Cookie: nfstypes.Cookie3(128 * k), Nextentry: head}
+			}
+			v := &nfstypes.READDIR3res{Status: nfstypes.NFS3_OK}
+			v.Resok.Reply.Entries = head
+			v.Resok.Reply.Eof = true
+			t := w.readNamed("READDIR3res", reflect.ValueOf(v).Elem())
+			bs, ok := realEncode(v)
+			if !ok {
+				emit("xenc readdir3res %s ERR", t.String())
+				continue
+			}
+			emit("xenc readdir3res %s %s", t.String(), hexOr(bs))
+			v2, ok2 := realDecode(xdrTypes["READDIR3res"], bs)
+			if !ok2 {
+				emit("xdec readdir3res %s 0 -", hexOr(bs))
+			} else {
+				emit("xdec readdir3res %s 1 %s", hexOr(bs), w.readNamed("READDIR3res", reflect.ValueOf(v2).Elem()).String())
+			}
+		}
+	}
+
 }
